@@ -20,11 +20,11 @@ import (
 var scaleMid = []int{7, 8, 9, 11, 12, 13, 15, 16, 17, 31, 32, 33, 63, 64, 65, 127, 128, 129, 255, 256, 257,
 	511, 512, 513, 999, 1000, 1001}
 var scaleBig = []int{1023, 1024, 1025, 1029, 2048, 2051}
-var scaleHuge = []int{4095, 4096, 4099, 8191, 8192, 8197, 10007, 16383, 16384, 16385}
-var scaleXL = []int{32767, 32768, 32769, 65535, 65536, 65537, 100003}
+var scaleHuge = []int{4095, 4096, 4099, 8197, 10007, 16385}
+var scaleXL = []int{32769, 65535, 65537, 100003}
 
 // modelLimit: above this size the list model (quadratic slices and map insertions) is not run
-const modelLimit = 20000
+const modelLimit = 4100
 
 // value patterns: periodic with periods 2^k and 2^k +- 1, zero-heavy, with cells at the cast boundaries
 type pattern struct {
@@ -80,7 +80,7 @@ func (p pattern) wide(i int) int64 {
 	}
 }
 
-func scaleName(prefix string, i int) string { return fmt.Sprintf("%s%06d", prefix, i) }
+func scaleName(prefix string, i int) string { return fmt.Sprintf("%s%06d", prefix[:1], i) }
 
 // ---------------------------------------------------------------- bare matrices
 
@@ -362,7 +362,8 @@ func scaleFamily(c *Config, g *gen) {
 	// the choice rotates with the axis and the seed.  The thorough tier gives every axis all of them and the
 	// sizes up to 10^5
 	axis := 0
-	run := func(f func(n int)) {
+	// limit: the largest size this axis is taken to in the thorough tier
+	run := func(limit int, f func(n int)) {
 		var sizes []int
 		if c.Thorough() {
 			sizes = append(sizes, scaleMid...)
@@ -379,48 +380,44 @@ func scaleFamily(c *Config, g *gen) {
 		}
 		axis++
 		for _, n := range sizes {
-			f(n)
+			if n <= limit {
+				f(n)
+			}
 		}
 	}
 	// bare matrices: many rows, many columns, a single long row
-	run(func(n int) { emitMx(c, "sc-mx", g.sparseDense(n, 5, 2), n%2 == 0) })
-	run(func(n int) { emitMx(c, "sc-mx", g.sparseDense(2, n, 3), n%2 == 1) })
-	run(func(n int) { emitMx(c, "sc-mx", g.sparseDense(1, n, 1+n/3), true) })
+	run(100003, func(n int) { emitMx(c, "sc-mx", g.sparseDense(n, 5, 2), n%2 == 0) })
+	run(100003, func(n int) { emitMx(c, "sc-mx", g.sparseDense(2, n, 3), n%2 == 1) })
+	run(100003, func(n int) { emitMx(c, "sc-mx", g.sparseDense(1, n, 1+n/3), true) })
 	// burndown: samples, bands, files, ownership table (the model of the history codec is linear: no -xl)
-	run(func(n int) { emitBd(c, "sc-bd", scaleBd(g.sparseDense(n, 6, 2))) })
-	run(func(n int) { emitBd(c, "sc-bd", scaleBd(g.sparseDense(3, n, 4))) })
-	run(func(n int) {
-		if n <= 16385 {
-			emitBd(c, "sc-bd", g.bdFiles(n))
-		}
-	})
-	run(func(n int) { emitBd(c, xl("sc-bd", n), g.bdOwnership(n)) })
+	run(100003, func(n int) { emitBd(c, "sc-bd", scaleBd(g.sparseDense(n, 6, 2))) })
+	run(100003, func(n int) { emitBd(c, "sc-bd", scaleBd(g.sparseDense(3, n, 4))) })
+	run(4099, func(n int) { emitBd(c, "sc-bd", g.bdFiles(n)) })
+	run(65537, func(n int) { emitBd(c, xl("sc-bd", n), g.bdOwnership(n)) })
 	// devs: ticks, developers of one tick, languages of one developer
-	run(func(n int) { emitDv(c, xl("sc-dv", n), g.dvTicks(n)) })
-	run(func(n int) { emitDv(c, xl("sc-dv", n), g.dvDevelopers(n)) })
-	run(func(n int) { emitDv(c, xl("sc-dv", n), g.dvLanguages(n)) })
+	run(100003, func(n int) { emitDv(c, xl("sc-dv", n), g.dvTicks(n)) })
+	run(65537, func(n int) { emitDv(c, xl("sc-dv", n), g.dvDevelopers(n)) })
+	run(16385, func(n int) { emitDv(c, xl("sc-dv", n), g.dvLanguages(n)) })
 	// couples: files, developers (the people matrix has one row more), one long row, both, a loaded dictionary
-	run(func(n int) { emitCp(c, xl("sc-cp", n), g.cpScale(n, 3, 0)) })
-	run(func(n int) { emitCp(c, xl("sc-cp", n), g.cpScale(5, n-1, 0)) })
-	run(func(n int) { emitCp(c, xl("sc-cp", n), g.cpScale(n, 2, n)) })
-	run(func(n int) {
-		if n >= 999 && n <= 2051 {
+	run(100003, func(n int) { emitCp(c, xl("sc-cp", n), g.cpScale(n, 3, 0)) })
+	run(16385, func(n int) { emitCp(c, xl("sc-cp", n), g.cpScale(5, n-1, 0)) })
+	run(65537, func(n int) { emitCp(c, xl("sc-cp", n), g.cpScale(n, 2, n)) })
+	run(2051, func(n int) {
+		if n >= 999 {
 			emitCp(c, "sc-cp", g.cpScale(n+6, n, 0))
 		}
 	})
-	run(func(n int) {
-		if n <= 2051 {
-			loaded := g.cpScale(17, n, 0) // dictionary read from a file: the pseudo-developer is named
-			loaded.names = append(loaded.names, "<unmatched>")
-			emitCp(c, "sc-cp", loaded)
-		}
+	run(2051, func(n int) {
+		loaded := g.cpScale(17, n, 0) // dictionary read from a file: the pseudo-developer is named
+		loaded.names = append(loaded.names, "<unmatched>")
+		emitCp(c, "sc-cp", loaded)
 	})
 	// quadratic shapes: triangular histories and the developers x developers interaction matrix
 	tri := []int{63, 64, 65, 255, 257}
 	ppl := []int{8, 9, 63, 64, 65, 257, 1029}
 	if c.Thorough() {
-		tri = append(tri, 511, 513, 1023, 1025)
-		ppl = append(ppl, 255, 256, 511, 513, 1023, 1024, 1025, 2051)
+		tri = append(tri, 511, 513, 1025)
+		ppl = append(ppl, 255, 256, 511, 513, 1024, 1025)
 	}
 	for _, n := range tri {
 		emitMx(c, "sc-mx", g.triangular(n, n), true)
